@@ -4,7 +4,7 @@ import json, hashlib, os
 
 def sig(rec, clauses):
     k = rec.get("k")
-    s = {"component": {"schur": "schur", "schurO": "schur", "pattern": "schur", "cpr": "cpr", "cprupd": "cpr", "cprO": "cpr",
+    s = {"component": {"schur": "schur", "schurO": "schur", "pattern": "schur", "cpr": "cpr", "cprupd": "cpr", "cprO": "cpr", "cprdev": "cpr",
                        "defl": "deflated_solver"}.get(k, str(k))}
     if k == "pattern":
         s.update(clause="pmask_pattern", pattern=rec.get("pattern"))
@@ -17,9 +17,9 @@ def sig(rec, clauses):
         s.update(clause="schur-operator" if any("schur-operator" in c for c in clauses) else "apply",
                  adjust_p=rec.get("adjust"), type=rec.get("type"), pressure_diagonal_stored=ppdiag)
     elif k == "cprupd":
-        s.update(clause="partial_update", variant=rec.get("variant"), update_transfer_ops=rec.get("transfer"),
+        s.update(clause="partial_update", variant=rec.get("variant"), update_transfer_ops=rec.get("transfer"), block_input=rec.get("block"),
                  crash=bool(rec.get("crash")), hang=bool(rec.get("hang")))
-    elif k in ("cpr", "cprO"):
+    elif k in ("cpr", "cprO", "cprdev"):
         s.update(clause="two-stage", variant=rec.get("variant", "cpr"), block_size=rec.get("B"), active_rows=rec.get("act"))
     elif k == "defl":
         s.update(clause="deflation", solver=rec.get("solver"), nvec=rec.get("nvec"))
@@ -57,8 +57,8 @@ def run(c):
     stage = c.parallel([
         lambda: c.build("record_composite", ["record_composite.cpp"]),
         lambda: model("SchurModel", {"NN": 3, "Stride": 1 if th else 5, "ColonParse": "TRUE", "AdjustFix": "TRUE"}, 8),
-        lambda: model("CprModel", None),
-        lambda: model("DeflationModel", {"KStride": 1 if th else 4}),
+        lambda: model("CprModel", {"ClearScratch": "TRUE", "AdjointInUpdate": "TRUE"}),
+        lambda: model("DeflationModel", {"KStride": 1 if th else 4, "MirrorE": "FALSE"}),
         lambda: model("PatternModel", {"ColonParse": "TRUE", "AdjustFix": "TRUE"}, 2),
     ], max_workers=5)
     rc = stage[0]
@@ -66,7 +66,13 @@ def run(c):
     pinned = c.parallel([
         lambda: model("SchurModel", {"NN": 3, "Stride": 1 if th else 17, "ColonParse": "FALSE", "AdjustFix": "FALSE"}, 6),
         lambda: model("PatternModel", {"ColonParse": "FALSE", "AdjustFix": "FALSE"}, 2),
-    ])
+        # variants that are NOT the code: they must violate, or the invariants have lost their teeth
+        lambda: model("CprModel", {"ClearScratch": "FALSE", "AdjointInUpdate": "TRUE"}, 2),
+        lambda: model("CprModel", {"ClearScratch": "TRUE", "AdjointInUpdate": "FALSE"}, 2),
+        lambda: model("DeflationModel", {"KStride": 8, "MirrorE": "TRUE"}, 2),
+    ], max_workers=3)
+    teeth = pinned[2:]
+    pinned = pinned[:2]
     modes = ["schur", "schurO", "pattern", "cpr", "cprO", "defl"]
     traces = c.parallel([(lambda m=m: c.record(rc, [m], out=c.path("comp-%s.ndjson" % m), timeout=1200)) for m in modes], max_workers=6)
     results = c.parallel([(lambda i=i: c.tlc_trace("C18Trace", traces[i], label=modes[i], chunk=1500, env=tenv)) for i in range(len(modes))],
@@ -97,6 +103,9 @@ def run(c):
     for m in pinned:
         if not skip_models and not m["violated"]:
             c.vacuous.append("%s as written (the snapshot) no longer violates its invariant: the model lost its teeth" % m["module"])
+    for m in teeth:
+        if not skip_models and not m["violated"]:
+            c.vacuous.append("%s %s (not the code) does not violate any invariant" % (m["module"], m.get("constants")))
     pv = ["%s:%s" % (m["module"], m["violated"]) for m in pinned if m["violated"]]
     if pv:
         c.note("model-level findings of the transcription as written: " + ", ".join(pv))
